@@ -1,25 +1,25 @@
 #!/bin/bash
 # Like recheck_seeds.sh, but never touches /repo or /verif/harness: a frozen copy of the harness (EVAL_SRC, default
-# /verif/harness as it is when the script starts) is built against a scratch worktree of /repo HEAD (/tmp/evalrepo)
+# /verif/harness as it is when the script starts) is built against a scratch worktree of /repo HEAD (/tmp/evalrepo${EVAL_SLOT:-})
 # that carries one stored seeded patch at a time.  usage: tools/recheck_seeds2.sh <seed-name>[:ID1,ID2]...
 cd "$(dirname "$0")/.."
 V=$PWD
-if [ ! -d /tmp/evalrepo ]; then git -C /repo worktree add -q --detach /tmp/evalrepo HEAD; fi
-git -C /tmp/evalrepo checkout -q -- . ; git -C /tmp/evalrepo checkout -q --detach $(git -C /repo rev-parse HEAD)
-mkdir -p /tmp/evalh /tmp/evalv
-rsync -a --delete --exclude target --exclude fuzz ${EVAL_SRC:-$V/harness}/ /tmp/evalh/
-sed -i 's#path = "/repo"#path = "/tmp/evalrepo"#' /tmp/evalh/Cargo.toml
-rsync -a --delete $V/known $V/regress $V/known_findings.json /tmp/evalv/
+if [ ! -d /tmp/evalrepo${EVAL_SLOT:-} ]; then git -C /repo worktree add -q --detach /tmp/evalrepo${EVAL_SLOT:-} HEAD; fi
+git -C /tmp/evalrepo${EVAL_SLOT:-} checkout -q -- . ; git -C /tmp/evalrepo${EVAL_SLOT:-} checkout -q --detach $(git -C /repo rev-parse HEAD)
+mkdir -p /tmp/evalh${EVAL_SLOT:-} /tmp/evalv${EVAL_SLOT:-}
+rsync -a --delete --exclude target --exclude fuzz ${EVAL_SRC:-$V/harness}/ /tmp/evalh${EVAL_SLOT:-}/
+sed -i "s#path = \"/repo\"#path = \"/tmp/evalrepo${EVAL_SLOT:-}\"#" /tmp/evalh${EVAL_SLOT:-}/Cargo.toml
+rsync -a --delete $V/known $V/regress $V/known_findings.json /tmp/evalv${EVAL_SLOT:-}/
 for spec in "$@"; do
   name="${spec%%:*}"; extra=""; [ "$spec" != "$name" ] && extra="${spec#*:}"
   prop=$(python3 -c "import json;print(json.load(open('seeded/$name/meta.json'))['breaks_property'])")
-  if ! git -C /tmp/evalrepo apply "$V/seeded/$name/patch.diff" 2>/dev/null; then echo "$name: patch does not apply"; continue; fi
-  ( cd /tmp/evalh && cargo build --profile checked --bin vcheck 2>/tmp/evalh/build.log ) || { echo "$name: build failed"; git -C /tmp/evalrepo checkout -q -- .; continue; }
+  if ! git -C /tmp/evalrepo${EVAL_SLOT:-} apply "$V/seeded/$name/patch.diff" 2>/dev/null; then echo "$name: patch does not apply"; continue; fi
+  ( cd /tmp/evalh${EVAL_SLOT:-} && cargo build --profile checked --bin vcheck 2>/tmp/evalh${EVAL_SLOT:-}/build.log ) || { echo "$name: build failed"; git -C /tmp/evalrepo${EVAL_SLOT:-} checkout -q -- .; continue; }
   unset VERIF_PLAIN_BIN
-  case " $prop $extra " in *C17*|*C19*) ( cd /tmp/evalh && cargo build --profile plain --bin vcheck 2>>/tmp/evalh/build.log ) && export VERIF_PLAIN_BIN=/tmp/evalh/target/plain/vcheck ;; esac
+  case " $prop $extra " in *C17*|*C19*) ( cd /tmp/evalh${EVAL_SLOT:-} && cargo build --profile plain --bin vcheck 2>>/tmp/evalh${EVAL_SLOT:-}/build.log ) && export VERIF_PLAIN_BIN=/tmp/evalh${EVAL_SLOT:-}/target/plain/vcheck ;; esac
   for p in $prop ${extra//,/ }; do
-    out=$(VERIF_DIR=/tmp/evalv /tmp/evalh/target/checked/vcheck $p quick 2>&1); rc=$?
-    echo "$name $p rc=$rc $(echo "$out" | grep -E '^leg|^stage|^regression|^abort' | head -1 | cut -c1-160)"
+    out=$(VERIF_DIR=/tmp/evalv${EVAL_SLOT:-} /tmp/evalh${EVAL_SLOT:-}/target/checked/vcheck $p quick 2>&1); rc=$?
+    echo "$name $p rc=$rc $(echo "$out" | grep -E '^leg|^stage|^regression|^abort|^crash|^INCONCLUSIVE' | head -1 | cut -c1-160)"
   done
-  git -C /tmp/evalrepo checkout -q -- .
+  git -C /tmp/evalrepo${EVAL_SLOT:-} checkout -q -- .
 done
